@@ -54,10 +54,15 @@ def gen_triple(rng, tier):
             ops.append("T")
         else:
             ops.append("K:%d" % rng.choice([1, 2, 60]))
+    # LogWriter::shutdown() with the writer kept alive (the handle of try_build_with_handle() dropped, a FileLogWriter
+    # registered as additional writer): everything must be in the files right after it, in every mode
+    tail = "H SN " if rng.random() < 0.35 else ""
     out = []
     for cap in (None, rng.choice([1, 3, 8, 64, 200]), "a%d.%d" % (rng.choice([1, 2, 3]), rng.choice([4, 16, 64]))):
         cfg = g.Cfg(cap=cap, **base)
-        out.append("flw %d 0 ; B:%s %s S SN" % (g.T0, cfg.token(), " ".join(ops)))
+        # (not in asynchronous mode: there shutdown() ends the writer thread, and the harness would wait for an answer to the
+        #  second shutdown message at the drop)
+        out.append("flw %d 0 ; B:%s %s %sS SN" % (g.T0, cfg.token(), " ".join(ops), "" if isinstance(cap, str) else tail))
     return out
 
 
@@ -90,6 +95,16 @@ def final_snapshot(obs):
     return toks[-1] if toks else None
 
 
+def after_shutdown(body, obs):
+    """the snapshot taken right after the shutdown operation H"""
+    ops = [t for t in body.split(" ; ", 1)[1].split(" ") if t]
+    res = [t for t in obs.split(" ") if t]
+    for k in range(len(ops) - 1):
+        if ops[k] == "H" and ops[k + 1] == "SN" and k + 1 < len(res):
+            return res[k + 1]
+    return None
+
+
 def oracle_all(cases, model, impl):
     out = {}
     for i in range(0, len(cases) - 2, 3):
@@ -103,6 +118,10 @@ def oracle_all(cases, model, impl):
             v = "fail an-operation-panicked"
         elif snaps[0] != snaps[1]:
             v = "fail buffered-mode-leaves-other-files-than-direct-mode direct=%s buffered=%s" % (snaps[0][:300], snaps[1][:300])
+        elif " H SN " in (" " + cases[i][1]) and " H SN " in (" " + cases[i + 1][1]) and after_shutdown(cases[i][1], results[0]) != after_shutdown(cases[i + 1][1], results[1]):
+            # right after shutdown() - the writer is still alive - the buffered mode must have written out what Direct has
+            v = "fail after-shutdown-buffered-mode-has-other-files-than-direct-mode direct=%s buffered=%s" % (
+                str(after_shutdown(cases[i][1], results[0]))[:300], str(after_shutdown(cases[i + 1][1], results[1]))[:300])
         elif snaps[0] != snaps[2]:
             v = "fail async-mode-leaves-other-files-than-direct-mode direct=%s async=%s" % (snaps[0][:300], snaps[2][:300])
         for x in ids:
